@@ -334,6 +334,7 @@ pub fn handle_scenarios(thorough: bool) -> Vec<Scenario> {
 /// handle keys of the form "h:<path>" / "nf:<path>" are resolved during warm-up
 pub fn handle_warmup(op: &Op) -> Vec<Op> {
     if op.procfs.as_deref() == Some("pj") { return vec![Op::new("proc_from_path").path("/proc").keep("pj")]; }
+    if op.path.as_deref().map(|p| p.ends_with("fd/40")).unwrap_or(false) { return vec![Op::new("raw_open").path("/src/file40").flags(O_RDONLY).keep("f40"), Op::new("handle_at_fd").handle("f40").num(40)]; }
     match op.handle.as_deref() {
         Some(h) if h.starts_with("h:") => vec![Op::new("resolve").root(ROOT_IN).path(&h[2..]).keep(h)],
         Some(h) if h.starts_with("nf:") => vec![Op::new("resolve_nofollow").root(ROOT_IN).path(&h[3..]).keep(h)],
@@ -409,6 +410,25 @@ pub fn items(prop: &str, tier: &str) -> Vec<Item> {
             f.extend(handle_scenarios(false).into_iter().step_by(if th { 2 } else { 5 }));
             for s in f.clone() { v.push(item(s, Plan::Fault { bound: 1, cfg: FaultCfg { all_syscalls: false, per_class: if th { 3 } else { 1 }, eagain_runs: vec![16], exhaustion: true, custom: None } }, if th { 20_000 } else { 2_000 })); }
             for s in f.into_iter().filter(|s| !s.path.is_empty()).step_by(2) { v.push(item(s, Plan::Attack { bound: 1, full: false }, 2_000)); }
+        }
+        "C06" => {
+            // racing part: one mount/umount (thorough: two) at every procfs syscall boundary of non-following lookups
+            for (hk, mapi) in [("private", 0u8), ("plain-open", 2u8), ("open_tree", 1u8)] {
+                for b in ["K", "E"] {
+                    let mut ops = vec![
+                        Op::new("proc_open").procfs("new").base("self").path("status").flags(O_RDONLY | O_NONBLOCK),
+                        Op::new("proc_open").procfs("new").base("thread-self").path("status").flags(O_PATH),
+                        Op::new("proc_readlink").procfs("new").base("self").path("fd/40"),
+                    ];
+                    if th { ops.push(Op::new("proc_open").procfs("new").base("root").path("self/status").flags(O_RDONLY | O_NONBLOCK)); ops.push(Op::new("proc_open").capi().base("self").path("status").flags(O_RDONLY | O_NOFOLLOW)); ops.push(Op::new("proc_open_follow").procfs("new").base("self").path("fd/40").flags(O_RDONLY)); }
+                    for op in ops {
+                        let sc = Scenario { name: format!("{}/{}/{}", hk, b, op.brief()), backend: b.into(), op, path: hk.to_string() };
+                        let mut it = item(sc, Plan::Attack { bound: if th { 2 } else { 1 }, full: th }, if th { 40_000 } else { 3_000 });
+                        it.mount_api = mapi;
+                        v.push(it);
+                    }
+                }
+            }
         }
         "C08" => {
             let subs: Vec<(&str, &str, &str)> = vec![
@@ -580,6 +600,21 @@ fn judge_concurrent(prop: &str, it: &Item, scen: &Scenario, w: &World, eo: &Exec
     Ok(v)
 }
 
+/// racing mounts (C06): one mount / umount of each kind on the entries a "self/status"-style lookup walks over
+pub fn mount_mutations(full: bool) -> Vec<Mutation> {
+    use crate::mountmc::MKind::*;
+    let mut v = vec![
+        Mutation::mount(BindFile, "{PID}/status"), Mutation::mount(BindProcFile, "{PID}/status"), Mutation::mount(Tmpfs, "{PID}"), Mutation::mount(BindDir, "{PID}"),
+        Mutation::mount(BindFile, "self"), Mutation::mount(BindFile, "thread-self"), Mutation::mount(BindDir, "{PID}/task"), Mutation::mount(BindFile, "{PID}/task/{PID}/status"),
+        // (this kernel refuses mounts on top of /proc/<pid>/fd/<n> itself - ENOENT - so only the directory is raced)
+        Mutation::mount(BindDir, "{PID}/fd"), Mutation::mount(Tmpfs, "{PID}/fd"),
+    ];
+    if full { v.extend(vec![Mutation::mount(BindProcDir, "{PID}"), Mutation::mount(BindMagicLink, "{PID}/status"), Mutation::mount(BindMagicLink, "{PID}/exe"), Mutation::mount(BindProcFile, "{PID}/task/{PID}/status"), Mutation::mount(Tmpfs, "{PID}/task")]); }
+    let rels: Vec<String> = v.iter().filter_map(|m| if let MutKind::Mount(_, r) = &m.kind { Some(r.clone()) } else { None }).collect::<std::collections::BTreeSet<_>>().into_iter().collect();
+    for r in rels { v.push(Mutation::umount(&r)); }
+    v
+}
+
 /// Judge one execution for `prop`. Returns (key, description) pairs.
 fn judge(prop: &str, it: &Item, scen: &Scenario, w: &World, eo: &ExecOut, counts: &mut BTreeMap<String, u64>) -> MResult<Vec<(String, String)>> {
     let mut v: Vec<(String, String)> = Vec::new();
@@ -618,6 +653,29 @@ fn judge(prop: &str, it: &Item, scen: &Scenario, w: &World, eo: &ExecOut, counts
     }
     if matches!(prop, "C12" | "C13") {
         v.extend(judge_concurrent(prop, it, scen, w, eo)?);
+        return Ok(v);
+    }
+    if prop == "C06" {
+        if eo.timeout || eo.horizon_hit { v.push(("hang".into(), "lookup did not terminate".into())); return Ok(v); }
+        match obs {
+            None => v.push(("crash".into(), format!("worker died: {}", outcome_text(w, eo, 0)))),
+            Some(o) => {
+                if let Some(p) = &o.panic { v.push(("panic".into(), format!("panic: {}", p))); return Ok(v); }
+                let srcs: Vec<(u64, u64)> = ["/src/secret-src", "/src/srcdir", "/src/srcdir/status", "/src/srcdir/fd", "/src/srcdir/fd/40", "/src/srcdir/task"].iter().filter_map(|p| lstat(&out(p)).map(|s| (s.dev, s.ino))).collect();
+                if o.ok {
+                    if let Some(fd) = &o.fd {
+                        let follows = scen.op.name == "proc_open_follow";
+                        if srcs.contains(&(fd.dev, fd.ino)) { v.push(("returned-overmount-source".into(), format!("returned the racing over-mount's object ({:?}) instead of the procfs entry", fd.procpath))); }
+                        else if !follows && fd.fstype != PROC_MAGIC { v.push(("not-procfs".into(), format!("returned an object that is not on procfs ({:?}, fstype 0x{:x})", fd.procpath, fd.fstype))); }
+                        else if !follows && scen.op.path.as_deref() == Some("status") && fd.mode & libc::S_IFMT != libc::S_IFREG { v.push(("wrong-type".into(), format!("status is not a regular file: mode {:o}", fd.mode))); }
+                    }
+                    if let Some(t) = &o.text { if scen.op.name == "proc_readlink" && !t.ends_with("/src/file40") { v.push(("wrong-link-body".into(), format!("readlink of fd/40 gave {:?}", t))); } }
+                } else if scen.path == "private" {
+                    // a private procfs instance cannot be affected by mounts on the host's /proc, racing or not
+                    v.push((format!("private-handle-affected:{}", errname(o.errno.unwrap_or(-1))), format!("a lookup through a private procfs instance failed with {} ({})", errname(o.errno.unwrap_or(-1)), o.msg.clone().unwrap_or_default().chars().take(200).collect::<String>())));
+                }
+            }
+        }
         return Ok(v);
     }
     if prop == "C08" {
@@ -720,11 +778,14 @@ pub fn run_item(prop: &str, tier: &str, idx: usize, only: Option<&Value>) -> MRe
     let mut states: BTreeSet<u64> = BTreeSet::new();
     let mut nontrivial: BTreeSet<u64> = BTreeSet::new();
     let mut counts: BTreeMap<String, u64> = BTreeMap::new();
+    let prop_is_c06 = prop == "C06";
+    if prop_is_c06 { crate::mountmc::build_sources()?; }
 
     // one complete execution of `scen` under `ch`; returns the violations found
     let mut one = |scen: &Scenario, ch: &mut Chooser, res: &mut ItemResult, confirm: bool, counts: &mut BTreeMap<String, u64>| -> MResult<(Vec<(String, String)>, String)> {
         let w = fresh_world()?;
         let mode = match &it.plan {
+            Plan::Attack { full, .. } if prop == "C06" => Mode::Attack(mount_mutations(*full)),
             Plan::Attack { full, .. } => Mode::Attack(mutations_for(&scen.path, *full)),
             Plan::Trace => Mode::Trace,
             Plan::Fault { cfg, .. } => Mode::Fault(cfg.clone()),
@@ -733,7 +794,7 @@ pub fn run_item(prop: &str, tier: &str, idx: usize, only: Option<&Value>) -> MRe
         let mut specs = vec![spec_for(&it, scen)];
         for o in &it.others { specs.push(spec_for(&it, o)); }
         let nworkers = specs.len();
-        let cfg = ExecCfg { specs, mode, root_out: out(ROOT_IN), horizon: 300_000, timeout_s: 60 };
+        let cfg = ExecCfg { specs, mode, root_out: out(ROOT_IN), horizon: 300_000, timeout_s: 60, attack_procfs: prop_is_c06 };
         let eo = execute(&cfg, ch)?;
         let otext = (0..nworkers).map(|i| outcome_text(&w, &eo, i)).collect::<Vec<_>>().join(" || ");
         if std::env::var("VMC_DEBUG").is_ok() {
@@ -801,7 +862,7 @@ pub fn run_item(prop: &str, tier: &str, idx: usize, only: Option<&Value>) -> MRe
         while tries < 20 {
             tries += 1;
             let _w = fresh_world()?;
-            let cfg = ExecCfg { specs: vec![spec_for(&it, &scen)], mode: Mode::Trace, root_out: out(ROOT_IN), horizon: 300_000, timeout_s: 60 };
+            let cfg = ExecCfg { specs: vec![spec_for(&it, &scen)], mode: Mode::Trace, root_out: out(ROOT_IN), horizon: 300_000, timeout_s: 60, attack_procfs: prop_is_c06 };
             let eo = execute(&cfg, &mut Chooser::new(vec![]))?;
             if eo.events.iter().any(|e| e.name == "openat2" && e.rval == -(libc::EAGAIN as i64)) { continue; }
             let sigs: Vec<String> = eo.events.iter().map(|e| e.sig()).collect();
@@ -905,7 +966,7 @@ pub fn trace_cmd(backend: &str, op: Op, warm: bool) -> MResult<()> {
     let w = fresh_world()?;
     let mut os = oneshot(backend, op.clone(), warm);
     os.warmup.extend(handle_warmup(&op));
-    let cfg = ExecCfg { specs: vec![os], mode: Mode::Trace, root_out: out(ROOT_IN), horizon: 500_000, timeout_s: 60 };
+    let cfg = ExecCfg { specs: vec![os], mode: Mode::Trace, root_out: out(ROOT_IN), horizon: 500_000, timeout_s: 60, attack_procfs: false };
     let t0 = now();
     let eo = execute(&cfg, &mut Chooser::new(vec![]))?;
     for (i, e) in eo.events.iter().enumerate() {
